@@ -23,6 +23,7 @@ mod genair;
 mod merkle;
 mod protocol;
 mod sched;
+mod selftest;
 mod streams;
 mod transport;
 mod wire;
@@ -57,5 +58,6 @@ fn main() {
     scs.extend(c26::scenarios());
     scs.extend(c28::scenarios());
     scs.extend(c27::scenarios());
+    scs.extend(selftest::scenarios());
     simcore::driver::main(scs, config_name());
 }
